@@ -18,6 +18,8 @@
 //	who = "engine": ExecutionEngine.Execute against a recording subgraph; acc <=> no error and the subgraph was called
 //	who = "val":    VariablesValidator.ValidateWithRemap after the engine's normalization steps
 //	who = "valq":   the same with DisableExposingVariablesContent
+//	who = "engl" / "engp": ONE long-lived engine executes every case twice, as it arrives and normalized by the caller
+//	                first (Execute branches on IsNormalized()), all 2N requests interleaved in a seed-shuffled order
 //	who = "vall" / "vallq": the same two, but ONE long-lived validator instance each for the whole sequence of cases
 //	                (seed-shuffled order): the verdict for a request must not depend on earlier requests
 //
@@ -525,9 +527,31 @@ func safely(stage *string, fn func() error) (err error) {
 
 // observeEngine: the whole pipeline. accepted <=> Execute returned no error and the subgraph request was sent.
 func observeEngine(eng *engine.ExecutionEngine, rec *recorder, id string, body []byte) (acc bool, msg, sent, resp, stage string) {
+	return observeEngineMode(eng, nil, rec, id, body)
+}
+
+// observeEngineMode: with preNormalize != nil the CALLER normalizes the request first (graphql.Request.Normalize with
+// its default options: variable extraction, fragment inlining, unused variables removed) and then hands it to
+// Execute, which branches on IsNormalized() and skips its own normalization and variable renaming.
+func observeEngineMode(eng *engine.ExecutionEngine, preNormalize *graphql.Schema, rec *recorder, id string, body []byte) (acc bool, msg, sent, resp, stage string) {
 	var req graphql.Request
 	if err := graphql.UnmarshalRequest(bytes.NewReader(body), &req); err != nil {
 		return false, "unmarshal: " + err.Error(), "", "", "unmarshal"
+	}
+	if preNormalize != nil {
+		stage = "prenormalize"
+		err := safely(&stage, func() error {
+			result, err := req.Normalize(preNormalize)
+			if err != nil {
+				return err
+			} else if !result.Successful {
+				return result.Errors
+			}
+			return nil
+		})
+		if err != nil {
+			return false, err.Error(), "", "", stage
+		}
 	}
 	w := graphql.NewEngineResultWriter()
 	ctx := context.WithValue(context.Background(), ridKey{}, id)
@@ -765,6 +789,41 @@ func main() {
 			acc, msg, stage := validateWith(long, schema, p)
 			accq, msgq, stageq := validateWith(longQuiet, schema, p)
 			results[idx] = append(results[idx], mk("vall", acc, true, msg, stage), mk("vallq", accq, false, msgq, stageq))
+		}
+	}
+	// History lane on ONE long-lived engine: every case is executed twice on the same engine instance, once as it
+	// arrives (the engine normalizes and renames variables; who = "engl") and once normalized by the caller first
+	// (who = "engp"); the 2N requests are interleaved in a seed-shuffled order, so engine-normalized and
+	// caller-normalized requests alternate. The verdict for a request must not depend on the requests before it.
+	{
+		seed, _ := strconv.ParseInt(os.Getenv("VERIF_SEED"), 10, 64)
+		rec := &recorder{bodies: map[string]string{}, fields: queryFields(hdr)}
+		eng, schema, err := newEngine(hdr, schemaSDL, rec)
+		if err != nil {
+			fmt.Fprintln(os.Stderr, "engine setup failed:", err)
+			os.Exit(2)
+		}
+		order := rand.New(rand.NewSource(seed + 7919)).Perm(2 * len(jobs))
+		lane := make([][2]*Obs, len(jobs))
+		for pos, k := range order {
+			idx, pre := k/2, k%2 == 1
+			j := jobs[idx]
+			body, query, variables, sentinels := buildRequest(hdr, j.c)
+			who, rid := "engl", j.id+"#l"
+			var preSchema *graphql.Schema
+			if pre {
+				who, rid, preSchema = "engp", j.id+"#p", schema
+			}
+			acc, msg, sent, resp, stage := observeEngineMode(eng, preSchema, rec, rid, body)
+			q := quoted(msg)
+			if acc {
+				q = []string{}
+			}
+			lane[idx][k%2] = &Obs{ID: j.id, Case: j.rawc, Who: who, Acc: acc, Expose: true, NQ: len(q), Q: q,
+				Leak: leaks(msg, sentinels), Msg: msg, Query: query, Vars: variables, Sent: sent, Resp: resp, Stage: stage, Pos: pos}
+		}
+		for idx := range lane {
+			results[idx] = append(results[idx], *lane[idx][0], *lane[idx][1])
 		}
 	}
 	of, err := os.Create(*out)
